@@ -51,7 +51,15 @@ func verifHandshake(id string, cost float64) []byte {
 
 // verifAnyDatagram returns one arbitrary datagram drawn from the classes a peer can send.
 func verifAnyDatagram() []byte {
-	switch verifapi.Choose(7) {
+	switch verifapi.Choose(8) {
+	case 7: // data packet between KNOWN nodes (their real name hashes) whose flags, service-name fields and hop byte are arbitrary bytes
+		names := []string{"A", "B", "C"}
+		enc := &Netceptor{nodeID: "Z", hashLock: &sync.RWMutex{}, nameHashes: map[uint64]string{}}
+		w, _ := enc.translateDataFromMessage(&MessageData{FromNode: names[verifapi.Choose(3)], ToNode: names[verifapi.Choose(3)], Data: []byte{1}})
+		raw := verifapi.Bytes(19)
+		copy(w[1:4], raw[0:3])
+		copy(w[20:36], raw[3:19])
+		return w
 	case 0: // raw bytes: empty, one type byte, type byte + garbage
 		raw := verifapi.BytesUpTo(2)
 		verifapi.Known("empty-datagram", len(raw) == 0)
